@@ -36,12 +36,13 @@ class PyCdlibIO(io.RawIOBase):
     Since ISOs are generally only readable, this is only a readable context
     manager.
     """
-    __slots__ = ('_ctxt', '_fp', '_length', '_offset', '_open', '_startpos')
+    __slots__ = ('_ctxt', '_fp', '_ino', '_length', '_offset', '_open', '_startpos')
 
     def __init__(self, ino, logical_block_size):
         # type: (inode.Inode, int) -> None
         super(PyCdlibIO, self).__init__()  # pylint: disable=super-with-arguments
         self._ctxt = inode.InodeOpenData(ino, logical_block_size)
+        self._ino = ino
         self._open = True
 
     def __enter__(self):
@@ -53,6 +54,26 @@ class PyCdlibIO(io.RawIOBase):
         self._startpos = self._fp.tell()
         self._offset = 0
         return self
+
+    def _overlay(self, data, offset):
+        # type: (bytes, int) -> bytes
+        """
+        Lay the El Torito Boot Info Table of the file (if it has one) over the
+        part of bytes 8-64 of the file that is in data, like it is when the
+        file is fetched as a whole or the ISO is written out.
+
+        Parameters:
+         data - The bytes read from the file.
+         offset - The offset in the file that data was read from.
+        Returns:
+         The bytes of the file at that offset.
+        """
+        start = max(offset, 8)
+        end = min(offset + len(data), 64)
+        if self._ino.boot_info_table is None or start >= end:
+            return data
+        rec = self._ino.boot_info_table.record()
+        return data[:start - offset] + rec[start - 8:end - 8] + data[end - offset:]
 
     def read(self, size=None):
         # type: (Optional[int]) -> bytes
@@ -78,7 +99,7 @@ class PyCdlibIO(io.RawIOBase):
         else:
             readsize = min(self._length - self._offset, size)
             self._fp.seek(self._startpos + self._offset)
-            data = self._fp.read(readsize)
+            data = self._overlay(self._fp.read(readsize), self._offset)
             self._offset += readsize
 
         return data
@@ -100,7 +121,7 @@ class PyCdlibIO(io.RawIOBase):
         readsize = self._length - self._offset
         if readsize > 0:
             self._fp.seek(self._startpos + self._offset)
-            data = self._fp.read(readsize)
+            data = self._overlay(self._fp.read(readsize), self._offset)
             self._offset += readsize
         else:
             data = b''
@@ -118,7 +139,7 @@ class PyCdlibIO(io.RawIOBase):
             m = mv.cast('B')
             readsize = min(readsize, len(m))
             self._fp.seek(self._startpos + self._offset)
-            data = self._fp.read(readsize)
+            data = self._overlay(self._fp.read(readsize), self._offset)
             n = len(data)
             m[:n] = data
             self._offset += n
